@@ -12,6 +12,10 @@ A *case* is a jsonable dict describing one call of `draw()`:
            cell (pixel size of a cell), compress, style_kw (other style-specific draw() parameters:
            z_index / mix / compress)
   C07      buffering 'none'|'full'|'line' (delivery discipline of the virtual stdout, see world.VStdout)
+  new API  cls 'FitR' + iter_size (per-operation size of an iteration, see extra_classes), padcls
+           'base'|'trivial'|'thirds' (AlignedPadding subclass used for an aligned `pad`)
+  world    stdout_size (cols, rows): standard output is NOT the active terminal (VTty.stdout_size);
+           alpha (old API draw() argument, C07 only)
   history  term0 (terminal size at the start), pre: steps executed before the judged draw in the same world on
            the same object - {"op": "draw", "kw": {overrides}} | {"op": "resize", "term": (c, r)} |
            {"op": "attrs", "set": "cooked"|"noecho"|"raw"}; `term` is the size at the judged draw
@@ -51,10 +55,22 @@ class Expect:
         self.__dict__.update(kw)
 
 
+def is_animation(case):
+    return bool((case["frames"] > 1 or case.get("indef")) and case.get("animate", True))
+
+
+def eff_size(case):
+    """Size of what is drawn: a renderable may fix a per-operation size for an iteration in its render data
+    (cls FitR, case["iter_size"]) that differs from its nominal render_size."""
+    if case["api"] == "new" and case.get("iter_size") and is_animation(case):
+        return tuple(case["iter_size"])
+    return tuple(case["size"])
+
+
 def expected(case):
     cols, rows = case["term"]
-    w, h = case["size"]
-    animation = bool((case["frames"] > 1 or case.get("indef")) and case.get("animate", True))
+    w, h = eff_size(case)
+    animation = is_animation(case)
     if case["api"] == "new":
         pad = case["pad"]
         fill = pad[-1]
@@ -64,6 +80,8 @@ def expected(case):
             ph = ph if ph > 0 else max(rows + ph, 1)
             W, H = max(pw, w), max(ph, h)
             left, top = ref_offsets(w, h, W, H, ha, va)
+            if case.get("padcls") == "thirds":       # the placement rule of the harness subclass
+                left, top = (W - w) // 3, (H - h) - (H - h) // 3
         else:
             _, left, top, right, bottom, _ = pad
             W, H = left + w + right, top + h + bottom
@@ -198,15 +216,68 @@ def old_image(case, L=None):
     return img
 
 
+_extra = {}
+
+
+def extra_classes():
+    """Harness subclasses of library extension points (built once per process on the real classes):
+    FitR      renderable whose `_get_render_data_` fixes a per-operation size for an iteration (`iter_size`)
+              that differs from its nominal `render_size`
+    Preset    trivial subclass of AlignedPadding (adds nothing)
+    Thirds    subclass of AlignedPadding overriding the documented `_get_exact_dimensions_` hook: the render
+              sits one third of the horizontal slack from the left, one third of the vertical one from the
+              bottom (alignments ignored)"""
+    if _extra:
+        return _extra
+    L = world.load()
+    ns = classes()
+    Renderable = L.renderable.Renderable
+    P = L.padding
+    Size = L.geometry.Size
+
+    class FitR(ns.TextR):
+        iter_size = None
+
+        def _get_render_data_(self, *, iteration):
+            rd = super()._get_render_data_(iteration=iteration)
+            if iteration and self.iter_size:
+                rd[Renderable].size = Size(*self.iter_size)
+            return rd
+
+    class Preset(P.AlignedPadding):
+        pass
+
+    class Thirds(P.AlignedPadding):
+        def _get_exact_dimensions_(self, render_size):
+            if self.relative:
+                raise P.RelativePaddingDimensionError("Relative minimum render dimension(s)")
+            sw = max(self.width - render_size.width, 0)
+            sh = max(self.height - render_size.height, 0)
+            left, top = sw // 3, sh - sh // 3
+            return left, top, sw - left, sh - top
+
+    _extra.update(FitR=FitR, Preset=Preset, Thirds=Thirds)
+    return _extra
+
+
+def padding_class(name):
+    P = world.load().padding
+    return {None: P.AlignedPadding, "base": P.AlignedPadding, "trivial": extra_classes()["Preset"],
+            "thirds": extra_classes()["Thirds"]}[name]
+
+
 def new_renderable(case):
     ns = classes()
-    cls = getattr(ns, case.get("cls", "TextR"))
+    name = case.get("cls", "TextR")
+    cls = extra_classes()[name] if name == "FitR" else getattr(ns, name)
     if case.get("indef"):
         # INDEFINITE frame count: a stream of case["frames"] frames
         FC = world.load().renderable.FrameCount
         return ns.make(FC.INDEFINITE, tuple(case["size"]), 100, case.get("mode", "plain"),
                        stream_len=case["frames"], cls=cls, number_mode=case.get("number_mode", "position"))
     r = ns.make(case["frames"], tuple(case["size"]), 100, case.get("mode", "plain"), cls=cls)
+    if case.get("iter_size"):
+        r.iter_size = tuple(case["iter_size"])
     if case.get("seek"):
         r.seek(case["seek"])
     return r
@@ -218,7 +289,7 @@ def new_padding(case, L=None):
     pad = case["pad"]
     if pad[0] == "aligned":
         _, pw, ph, ha, va, fill = pad
-        return P.AlignedPadding(pw, ph, P.HAlign(ha), P.VAlign(va), fill)
+        return padding_class(case.get("padcls"))(pw, ph, P.HAlign(ha), P.VAlign(va), fill)
     _, left, top, right, bottom, fill = pad
     return P.ExactPadding(left, top, right, bottom, fill)
 
@@ -234,7 +305,10 @@ def resize(tty, cols, rows, cell=CELL):
         tty.xpx, tty.ypx = cols * cell[0], rows * cell[1]
 
 
-def execute(case, plan=None, on_frame=None, prepare=None):
+TTY_IO_CALLS = ("write", "tcdrain", "select", "read", "monotonic")
+
+
+def execute(case, plan=None, on_frame=None, prepare=None, tty_fault=None):
     """Run the real draw() for *case*.  `on_frame(run, j)` is called when the j-th drawn frame is
     completely on the screen (before the sleep that follows it)."""
     L = world.load()
@@ -247,6 +321,10 @@ def execute(case, plan=None, on_frame=None, prepare=None):
     clock = Clock(stdout)
     cols0, rows0 = case.get("term0") or (cols, rows)      # terminal size before the history `pre`
     tty = world.setup(ident, cols0, rows0, cell=cell, stdout=stdout, clock=clock)
+    if case.get("stdout_size"):
+        # standard output is not the active terminal: only the tty's own fd reports the terminal's size,
+        # the shutil fallback reports this one
+        tty.stdout_size = tuple(case["stdout_size"])
     run = Run()
     run.case, run.term, run.stdout, run.clock, run.tty = case, term, stdout, clock, tty
     run.exc = None
@@ -274,6 +352,8 @@ def execute(case, plan=None, on_frame=None, prepare=None):
                       cached=case.get("cached", False), scroll=case.get("scroll", False),
                       check_size=case.get("check_size", True))
             kw.update(old_style_args(case))
+            if "alpha" in case:
+                kw["alpha"] = case["alpha"]
 
             def call(**over):
                 subj.draw(ha, pw, va, ph, **dict(kw, **over))
@@ -320,6 +400,13 @@ def execute(case, plan=None, on_frame=None, prepare=None):
         stdout.plan = plan
         stdout.npoints = 0
         del stdout.log[:]
+        # calls into the tty device made by draw() itself (terminal queries of a render, termios of the new
+        # API) are numbered from here; tty_fault = (i, mode, exc_factory) hits the i-th of them
+        n0 = tty.ncalls
+        tty.log_calls, tty.calls = True, []
+        tty.fault, tty.fault_fired = None, False
+        if tty_fault is not None:
+            tty.fault = (n0 + tty_fault[0], tty_fault[1], tty_fault[2])
         try:
             call()
         except BaseException as e:  # noqa - the verdict on it belongs to the oracle
@@ -329,6 +416,10 @@ def execute(case, plan=None, on_frame=None, prepare=None):
         finally:
             clock.on_sleep = None
             stdout.plan = None
+            run.tty_fault_fired = tty.fault_fired
+            tty.fault = None
+            tty.log_calls = False
+            run.tty_calls = [(n - n0, kind) for n, kind, _ in tty.calls]
         # what a real buffered stream still holds is written out eventually
         stdout._handover()
         run.attrs_after = tty.attrs
@@ -346,7 +437,7 @@ _ref_cache = {}
 
 def _inner_key(case, k):
     if case["api"] == "new":
-        return ("new", case.get("mode", "plain"), tuple(case["size"]), k)
+        return ("new", case.get("mode", "plain"), eff_size(case), k)
     return ("old", case["style"], case.get("ident", "other"), case.get("method"), tuple(case["size"]),
             tuple(case.get("srcsize") or ()), case["frames"], k, tuple(case.get("cell") or CELL), case.get("compress"),
             bool(case["frames"] > 1 and case.get("animate", True)),
@@ -363,7 +454,8 @@ def inner_frame(case, k):
     ident = case.get("ident", "other")
     world.setup(ident, cols, rows, cell=tuple(case.get("cell") or CELL))
     if case["api"] == "new":
-        r = new_renderable(dict(case, seek=k, cls="TextR", indef=False, frames=max(case["frames"], k + 1, 2)))
+        r = new_renderable(dict(case, seek=k, cls="TextR", indef=False, frames=max(case["frames"], k + 1, 2),
+                                size=eff_size(case), iter_size=None))
         out = str(r)
     else:
         c = dict(case, seek=k, dyn=False, src=None)
